@@ -1,5 +1,5 @@
 """Unit registry: which assembled Verus files exist and which properties each carries."""
-from units import expr, builder, smallslices, tables, dfa, bindings, elim, regexp, render, fmtunit, nested, minimize, indent
+from units import expr, builder, smallslices, tables, dfa, bindings, elim, regexp, render, fmtunit, nested, minimize, indent, charcount
 
 REGISTRY = {
     'expr':     lambda repo, sd, canary=False: expr.build(repo, sd, canary=canary),
@@ -24,6 +24,7 @@ REGISTRY = {
     'nested':   lambda repo, sd, canary=False: nested.build(repo, sd, canary=canary),
     'minimize': lambda repo, sd, canary=False: minimize.build(repo, sd, canary=canary),
     'indent':   lambda repo, sd, canary=False: indent.build(repo, sd, canary=canary),
+    'charcount': lambda repo, sd, canary=False: charcount.build(repo, sd, canary=canary),
     'trie':     lambda repo, sd, canary=False: dfa.build_trie(repo, sd, canary=canary),
     'wasm':     lambda repo, sd, canary=False: bindings.build_wasm(repo, sd, canary=canary),
     'python':   lambda repo, sd, canary=False: bindings.build_python(repo, sd, canary=canary),
@@ -31,13 +32,13 @@ REGISTRY = {
 }
 # units whose obligations carry a property (an obligation counts for a property only if its clause is tagged with it)
 PROP_UNITS = {
-    'C01': ['expr', 'elim', 'matrix', 'regexp', 'caseconv', 'split', 'escaper', 'rep', 'dfa', 'dfa_kf', 'trie', 'render', 'format', 'nested'],
-    'C02': ['expr', 'elim', 'matrix', 'regexp', 'dfa', 'minimize', 'gates', 'render', 'format'],
+    'C01': ['expr', 'elim', 'matrix', 'regexp', 'caseconv', 'split', 'escaper', 'rep', 'dfa', 'dfa_kf', 'trie', 'render', 'format', 'nested', 'charcount'],
+    'C02': ['expr', 'elim', 'matrix', 'regexp', 'dfa', 'minimize', 'gates', 'render', 'format', 'charcount'],
     'C03': ['classify', 'gates', 'trie'],
     'C04': ['caseconv', 'regexp', 'render'],
-    'C05': ['trie', 'render', 'rep', 'splice'],
+    'C05': ['trie', 'render', 'rep', 'splice', 'charcount'],
     'C06': ['render', 'format', 'trie', 'rep', 'nested', 'indent'],
-    'C07': ['expr', 'elim', 'matrix', 'regexp', 'builder', 'split', 'escaper', 'caseconv', 'rep', 'splice', 'gates', 'render', 'format', 'order', 'dfa', 'minimize', 'trie', 'cli', 'escape', 'classify', 'nested', 'indent'],
+    'C07': ['expr', 'elim', 'matrix', 'regexp', 'builder', 'split', 'escaper', 'caseconv', 'rep', 'splice', 'gates', 'render', 'format', 'order', 'dfa', 'minimize', 'trie', 'cli', 'escape', 'classify', 'nested', 'indent', 'charcount'],
     'C08': ['render', 'expr', 'regexp', 'format', 'indent'],
     'C09': ['tables', 'classify'],
     'C10': ['builder', 'regexp', 'gates', 'order', 'dfa'],
@@ -46,7 +47,7 @@ PROP_UNITS = {
     'C13': ['rep', 'splice', 'builder', 'render', 'trie'],
     'C14': ['python'],
     'C15': ['render', 'indent'],
-    'C16': ['expr', 'elim', 'matrix', 'regexp', 'dfa', 'dfa_kf', 'minimize', 'trie', 'render', 'format'],
+    'C16': ['expr', 'elim', 'matrix', 'regexp', 'dfa', 'dfa_kf', 'minimize', 'trie', 'render', 'format', 'charcount'],
     'C17': ['wasm'],
 }
 # dfa_kf holds exactly the known-finding clause (its canary would be redundant with dfa's); tables has no function with a context
